@@ -1,11 +1,11 @@
 (* C03 property theorems: statements only; proofs live in Proofs/{C03,C03Back,C03_TS,...}.v *)
 From Coq Require Import String List Bool.
-From TS Require Import Model.Str Model.Outcome Model.Unicode Model.Syntax Model.Attrs Model.Types Model.Parse
+From TS Require Import Model.Str Model.Outcome Model.Unicode Model.Syntax Model.Attrs Model.Types Model.Parse Model.Reconcile
                        Model.Lang.Common Model.Lang.Decl Model.Lang.TypeScript Model.Lang.Kotlin Model.Lang.Swift
                        Model.Lang.Scala Model.Lang.Go Model.Lang.Python.
 From TS Require Import Spec.Serde Spec.TargetOsRule Spec.C03Spec.
 From TS Require Proofs.FrontItems Proofs.C03 Proofs.C03_TS Proofs.C03_Kotlin Proofs.C03_Swift Proofs.C03_Scala Proofs.C03_Go
-                Proofs.C03_Python Proofs.C03_Witness Proofs.C03Src.
+                Proofs.C03_Python Proofs.C03_Witness Proofs.C03Src Proofs.C03E2E Proofs.C03_All.
 Import ListNotations.
 
 (* the struct / enum / type / const item handed to the matching parse_* function *)
@@ -210,3 +210,65 @@ Theorem C03_python_typekey_collision_refuted :
                 py_file_decls uc_exec Proofs.C03_Witness.c03_py_cfg pd = Ok fd /\ good_C03_file Python pd fd = false.
 Proof. exact Proofs.C03_Witness.python_typekey_collision_refuted. Qed.
 Print Assumptions C03_python_typekey_collision_refuted.
+
+(* C03 END TO END.  For every source file inside the quantifier (dom_C03_src_file: cfg attributes rustc accepts,
+   conventional identifiers) and outside the two finding classes (decided on the source), whenever parsing
+   records no error and the back end answers: the definitions of the generated file (after reconcile_crate,
+   for any rename table) are, as a multiset of signatures, exactly what the SOURCE demands - one per annotated,
+   target-accepted struct / enum / type / const, plus one helper struct per kept struct variant (TypeScript:
+   inline), each listing exactly the source fields / variants not marked skip, in source order, under serde's
+   keys.  This is the verdict the check evaluates on the real tool's output (good_C03_src_file). *)
+Theorem C03_end_to_end_TypeScript : forall (uc : unicode), unicode_ok uc -> forall (tstr : str -> option ty) (T : list str) (cfg : ts_config)
+    (f : file) (pd : parsed) (cn : str) (rn : renames) (fd : file_decls),
+  dom_C03_src_file T f = true -> known_C03_src_file uc T TypeScript f = None ->
+  parse_file uc tstr T f = Ok (Some pd) -> p_errors pd = [] ->
+  ts_file_decls uc cfg (reconcile_crate rn cn pd) = Ok fd ->
+  good_C03_src_file uc T TypeScript f (map c03_sig_of (fd_decls fd)) = true.
+Proof. exact Proofs.C03_All.e2e_ts. Qed.
+Print Assumptions C03_end_to_end_TypeScript.
+
+Theorem C03_end_to_end_Kotlin : forall (uc : unicode), unicode_ok uc -> forall (tstr : str -> option ty) (T : list str) (cfg : kt_config)
+    (f : file) (pd : parsed) (cn : str) (rn : renames) (fd : file_decls),
+  dom_C03_src_file T f = true -> known_C03_src_file uc T Kotlin f = None ->
+  parse_file uc tstr T f = Ok (Some pd) -> p_errors pd = [] ->
+  kt_file_decls uc cfg (reconcile_crate rn cn pd) = Ok fd ->
+  good_C03_src_file uc T Kotlin f (map c03_sig_of (fd_decls fd)) = true.
+Proof. exact Proofs.C03_All.e2e_kt. Qed.
+Print Assumptions C03_end_to_end_Kotlin.
+
+Theorem C03_end_to_end_Swift : forall (uc : unicode), unicode_ok uc -> forall (tstr : str -> option ty) (T : list str) (cfg : sw_config)
+    (f : file) (pd : parsed) (cn : str) (rn : renames) (fd : file_decls),
+  dom_C03_src_file T f = true -> known_C03_src_file uc T Swift f = None ->
+  parse_file uc tstr T f = Ok (Some pd) -> p_errors pd = [] ->
+  sw_file_decls uc cfg (reconcile_crate rn cn pd) = Ok fd ->
+  good_C03_src_file uc T Swift f (map c03_sig_of (fd_decls fd)) = true.
+Proof. exact Proofs.C03_All.e2e_sw. Qed.
+Print Assumptions C03_end_to_end_Swift.
+
+Theorem C03_end_to_end_Scala : forall (uc : unicode), unicode_ok uc -> forall (tstr : str -> option ty) (T : list str) (cfg : sc_config)
+    (f : file) (pd : parsed) (cn : str) (rn : renames) (fd : file_decls),
+  dom_C03_src_file T f = true -> known_C03_src_file uc T Scala f = None ->
+  parse_file uc tstr T f = Ok (Some pd) -> p_errors pd = [] ->
+  sc_file_decls uc cfg (reconcile_crate rn cn pd) = Ok fd ->
+  good_C03_src_file uc T Scala f (map c03_sig_of (fd_decls fd)) = true.
+Proof. exact Proofs.C03_All.e2e_sc. Qed.
+Print Assumptions C03_end_to_end_Scala.
+
+Theorem C03_end_to_end_Go : forall (uc : unicode), unicode_ok uc -> forall (tstr : str -> option ty) (T : list str) (cfg : go_config)
+    (f : file) (pd : parsed) (cn : str) (rn : renames) (fd : file_decls),
+  dom_C03_src_file T f = true -> known_C03_src_file uc T Go f = None ->
+  parse_file uc tstr T f = Ok (Some pd) -> p_errors pd = [] ->
+  go_file_decls uc cfg (reconcile_crate rn cn pd) = Ok fd ->
+  good_C03_src_file uc T Go f (map c03_sig_of (fd_decls fd)) = true.
+Proof. exact Proofs.C03_All.e2e_go. Qed.
+Print Assumptions C03_end_to_end_Go.
+
+Theorem C03_end_to_end_Python : forall (uc : unicode), unicode_ok uc -> forall (tstr : str -> option ty) (T : list str) (cfg : py_config)
+    (f : file) (pd : parsed) (cn : str) (rn : renames) (fd : file_decls),
+  dom_C03_src_file T f = true -> known_C03_src_file uc T Python f = None ->
+  parse_file uc tstr T f = Ok (Some pd) -> p_errors pd = [] ->
+  py_file_decls uc cfg (reconcile_crate rn cn pd) = Ok fd ->
+  good_C03_src_file uc T Python f (map c03_sig_of (fd_decls fd)) = true.
+Proof. exact Proofs.C03_All.e2e_py. Qed.
+Print Assumptions C03_end_to_end_Python.
+
